@@ -433,7 +433,15 @@ def p_all(interp, xs):
         for x in c:
             r = V.and_(r, interp.truth(x))
         return r
-    raise Unsupported("all over symbolic")
+    s = as_symseq(interp, xs)
+    cx = interp.cx
+    b = cx.fresh_bool("all")
+    j = z3.Int("j!q")
+    w = cx.fresh_int("allw")
+    body = lambda i: lift(interp.truth(s.get(i)))  # noqa: E731
+    cx.assume(z3.Implies(z3.Not(b), z3.And(0 <= w, w < lift(s.length), z3.Not(body(w)))), tag="all")
+    cx.assume(z3.Implies(b, V.forall([j], z3.Implies(z3.And(0 <= j, j < lift(s.length)), body(j)))), tag="all")
+    return b
 
 
 @prim("builtins.sum")
@@ -799,6 +807,28 @@ def symbolic_comp(interp, e, g, seq: V.SymSeq, frame, kind):
             r.keys_distinct = True
         return r
     if kind == "set":
+        n0 = r0[0].value if isinstance(r0, tuple) and len(r0) == 2 and isinstance(r0[0], V.Opt) else (r0[0] if isinstance(r0, tuple) and len(r0) == 2 else None)
+        if isinstance(n0, NodeRef):
+            # {(node | None, index) for x in seq}: an EDGE set.  (None, i) members can never equal a (node, i) pair, so the
+            # membership predicate over (Node, Int) is exact when it ranges over the non-None entries only.
+            from .graph import EdgeSet
+            E = EdgeSet(cx, "edges")
+            w = cx.fresh_func("edgew", V.NodeS, z3.IntSort(), z3.IntSort())
+            xn, xi, j = z3.Const("x!q", V.NodeS), z3.Int("i!q"), z3.Int("j!q")
+
+            def at(jj):
+                r = pure(jj)
+                nd = r[0]
+                none = nd.is_none if isinstance(nd, V.Opt) else z3.BoolVal(False)
+                nd = nd.value if isinstance(nd, V.Opt) else nd
+                return lift(none), nd.term, lift(r[1])
+            nj, tj, ij = at(j)
+            nw, tw, iw = at(w(xn, xi))
+            n = lift(seq.length)
+            cx.assume(V.forall([j], z3.Implies(z3.And(0 <= j, j < n, z3.Not(nj)), E.contains(tj, ij))), tag="edge-set comprehension")
+            cx.assume(V.forall([xn, xi], z3.Implies(E.contains(xn, xi), z3.And(0 <= w(xn, xi), w(xn, xi) < n, z3.Not(nw), tw == xn, iw == xi)),
+                               patterns=[E.contains(xn, xi)]), tag="edge-set comprehension")
+            return E
         s = V.SymSeq(seq.length, pure)
         return set_from_seq(interp, s)
     if kind == "dict":
